@@ -51,6 +51,9 @@ def make_sync_manager(channel, write_only=False, logger=None,
                 channel.hosts.append(self)
 
         def _publish(self, data):
+            if getattr(self, 'fail_next_publish', False):
+                self.fail_next_publish = False
+                raise ConnectionError('injected publish failure')
             self.chan.publish(pickle.dumps(data), self)
 
         def _listen(self):
@@ -126,6 +129,9 @@ def make_async_manager(channel, write_only=False, logger=None,
                 channel.hosts.append(self)
 
         async def _publish(self, data):
+            if getattr(self, 'fail_next_publish', False):
+                self.fail_next_publish = False
+                raise ConnectionError('injected publish failure')
             self.chan.publish(pickle.dumps(data), self)
 
         async def _listen(self):
